@@ -1,7 +1,7 @@
 (* Props/C10.v -- property theorems only *)
 From Coq Require Import ZArith List NArith.
 From Falcon Require Import Base.Res IL.Const IL.Expr IL.Func IL.Loc Exec.Sem SSA.SemSSA SSA.FuncEq SSA.SsaCheck
-     SSA.SsaSound SSA.SsaModel SSA.SsaTotal SSA.SsaFresh SSA.SsaArity SSA.SsaIdf SSA.SsaIdfModel SSA.SsaNonLocal SSA.SsaComplete SSA.C10Check.
+     SSA.SsaSound SSA.SsaModel SSA.SsaTotal SSA.SsaFresh SSA.SsaArity SSA.SsaIdf SSA.SsaIdfModel SSA.SsaNonLocal SSA.SsaComplete SSA.SsaUncond SSA.SsaRenameEq SSA.C10Check.
 From Falcon Require Graph.Spec Graph.Graph Graph.Algo.
 Import ListNotations.
 Local Open Scope Z_scope.
@@ -52,14 +52,14 @@ Print Assumptions ssa_operands_agree.
 
 (* ================= round 2: the MODEL of the algorithm (SsaModel.ssa_model, tied to the Rust code [D]) ======= *)
 
-(* [U] totality, conditional on C11's hypothesis `semi_nca_ok` (the model of Semi-NCA returns the immediate-
-   dominator relation of the function's graph: checked per output by C11 [V], proved for <= 4 vertices [F]):
-   on every function with an entry and cfg_inv the model returns Ok -- no Err, no Panic, no fuel exhaustion *)
-Theorem ssa_total_partial : forall f e,
-  cfg_inv (f_cfg f) = true -> g_entry (f_cfg f) = Some e -> semi_nca_ok (f_cfg f) ->
+(* [U] totality: on every function with an entry, cfg_inv and a block count that fits a usize the model returns Ok
+   -- no Err, no Panic, no fuel exhaustion.  (Round 4: C11's unbounded correctness of Semi-NCA,
+   Graph.SemiNcaFinal.snca_correct, discharges the former hypothesis `semi_nca_ok`.) *)
+Theorem ssa_total : forall f e,
+  cfg_inv (f_cfg f) = true -> g_entry (f_cfg f) = Some e -> blocks_fit (f_cfg f) ->
   exists f', ssa_model f = Ok f' /\ erase_func f' = erase_func f.
-Proof. exact SsaTotal.ssa_total_partial. Qed.
-Print Assumptions ssa_total_partial.
+Proof. exact SsaUncond.ssa_total. Qed.
+Print Assumptions ssa_total.
 
 (* [U] unconditional: whatever the model returns differs from its input only in ssa fields and phi nodes *)
 Theorem ssa_model_erase : forall f f', ssa_model f = Ok f' -> erase_func f' = erase_func f.
@@ -84,19 +84,19 @@ Print Assumptions ssa_model_arity.
 (* completeness.  NOT proved:  ssa_correct_full :=
      forall f e, cfg_inv (f_cfg f) = true -> g_entry (f_cfg f) = Some e -> erase_func f = f ->
      exists f', ssa_model f = Ok f' /\ ssa_check f f' = true.
-   Proved [U] (under semi_nca_ok): the model returns Ok f' and ssa_check f f' = remaining f', where
+   Proved [U]: the model returns Ok f' and ssa_check f f' = remaining f', where
    `remaining` = (every versioned use is defined) && (local consistency of the inferred typing: block_ok,
    edge_check, entry_ok); conditions (1), struct_ok, the uniqueness half of (2) and (4) hold.
    `remaining f' = true` for the model's output (SsaComplete.ssa_remaining_open) is open: its dominance-frontier
    content is proved below (the idf_ theorems), the renaming invariant of the dominator-tree walk is not. *)
 Theorem ssa_correct_partial : forall f e,
-  cfg_inv (f_cfg f) = true -> g_entry (f_cfg f) = Some e -> erase_func f = f -> semi_nca_ok (f_cfg f) ->
+  cfg_inv (f_cfg f) = true -> g_entry (f_cfg f) = Some e -> erase_func f = f -> blocks_fit (f_cfg f) ->
   exists f', ssa_model f = Ok f' /\
              erase_func f' = f /\ func_eqb (erase_func f') f = true /\ struct_ok f' = true /\
              NoDup (map skey_of (filter versioned (all_defs f'))) /\
              forallb (fun b => forallb (phi_arity_ok f' b) (b_phis b)) (f_blocks f') = true /\
              ssa_check f f' = remaining f'.
-Proof. exact SsaComplete.ssa_correct_partial. Qed.
+Proof. exact SsaUncond.ssa_correct_partial'. Qed.
 Print Assumptions ssa_correct_partial.
 
 (* [U] unconditional: what the (repaired) compute_non_local_scalars guarantees -- every read not preceded by a write
@@ -111,9 +111,9 @@ Proof. exact SsaNonLocal.non_locals_cover. Qed.
 Print Assumptions non_locals_cover.
 
 (* [U] the classical iterated-dominance-frontier property of the placement (was to be the hypothesis
-   `idf_covered`; it is proved): under semi_nca_ok, for every written non-local scalar sc the blocks INS that
+   `idf_covered`; it is proved): for every written non-local scalar sc the blocks INS that
    received a phi node for sc satisfy  DF(defs(sc) + INS) <= INS  for the textbook frontier in_DF *)
-Theorem idf_covered_model : forall g g1 e, cfg_wf g -> g_entry g = Some e -> In e (bidx g) -> semi_nca_ok g ->
+Theorem idf_covered_model : forall g g1 e, cfg_inv g = true -> g_entry g = Some e -> blocks_fit g ->
   insert_phi_nodes g = Ok g1 ->
   exists gr, cfg_graph g = Ok gr /\
     forall sc defs, In (sc, defs) (scalars_mutated_in_blocks g) ->
@@ -121,7 +121,7 @@ Theorem idf_covered_model : forall g g1 e, cfg_wf g -> g_entry g = Some e -> In 
       exists INS, (forall i, In i INS -> has_phi g1 i sc) /\
         forall d y, In (Z.of_N d) defs \/ In (Z.of_N d) INS ->
                     Spec.in_DF (Graph.edge_keys gr) (Z.to_N e) d y -> In (Z.of_N y) INS.
-Proof. exact SsaIdfModel.model_idf_covered. Qed.
+Proof. exact SsaUncond.idf_covered. Qed.
 Print Assumptions idf_covered_model.
 
 (* [U] what that closure buys (pure dominance, Graph/Spec.v): at a block s without a phi node every predecessor p
@@ -138,6 +138,35 @@ Theorem idf_no_phi_entry : forall es r (D Dphi : N -> Prop),
   forall p a, ~ Dphi r -> Spec.edge es p r -> D a -> ~ Spec.dom es r a p.
 Proof. exact SsaIdf.no_phi_entry. Qed.
 Print Assumptions idf_no_phi_entry.
+
+(* [U] reduction of the validator's edge obligations (names without phi node at the target) to the LOCAL equations
+   of dominator-tree renaming: vin b / vout b = version of a fixed name in scope at the entry (after phi nodes) /
+   at the end of block b.  Given the frontier closure (idf_covered_model) and
+     (E1) idom i s, no phi at s -> vin s = vout i     (E3) no instruction write in b -> vout b = vin b
+     (E0) no phi at the entry -> vin r = v0
+   every predecessor of a phi-less block ends with the version the block starts with, and every predecessor of a
+   phi-less entry ends with the entry value.  Open: that SsaModel.dom_walk establishes (E0)-(E3) for its output. *)
+Theorem rename_edge_agree : forall (es : list (N * N)) (r : N) (vs : list N),
+  (forall v, Spec.reach es r v -> In v vs) ->
+  forall defs phi : N -> Prop,
+  (forall d y, defs d \/ phi d -> Spec.in_DF es r d y -> phi y) ->
+  forall (A : Type) (vin vout : N -> A),
+  (forall i s, Spec.idom es r i s -> ~ phi s -> vin s = vout i) ->
+  (forall b, Spec.reach es r b -> ~ defs b -> vout b = vin b) ->
+  forall i s p, Spec.idom es r i s -> ~ phi s -> Spec.edge es p s -> Spec.reach es r p -> vout p = vin s.
+Proof. exact SsaRenameEq.edge_agree. Qed.
+Print Assumptions rename_edge_agree.
+Theorem rename_entry_agree : forall (es : list (N * N)) (r : N) (vs : list N),
+  (forall v, Spec.reach es r v -> In v vs) ->
+  forall defs phi : N -> Prop,
+  (forall d y, defs d \/ phi d -> Spec.in_DF es r d y -> phi y) ->
+  forall (A : Type) (vin vout : N -> A) (v0 : A),
+  (forall i s, Spec.idom es r i s -> ~ phi s -> vin s = vout i) ->
+  (forall b, Spec.reach es r b -> ~ defs b -> vout b = vin b) ->
+  (~ phi r -> vin r = v0) ->
+  forall p, ~ phi r -> Spec.edge es p r -> Spec.reach es r p -> vout p = v0.
+Proof. exact SsaRenameEq.entry_agree. Qed.
+Print Assumptions rename_entry_agree.
 
 (* ---- the hypotheses are satisfiable; the validator is not vacuous ---- *)
 Definition sx (v : option N) := mks 0%N 32 v.
@@ -195,11 +224,9 @@ Example guard_only_fixed_output_accepted :
   ssa_check kf_f kf_f'_fixed = true /\ run_agree kf_f kf_f'_fixed 8 kf_state = true.
 Proof. vm_compute. split; reflexivity. Qed.
 
-(* semi_nca_ok is satisfiable (here by computation), so ssa_total_partial applies *)
-Example semi_nca_ok_ex : semi_nca_ok (f_cfg ex_f).
-Proof.
-  intros gr e Hg He. vm_compute in He. injection He as <-. vm_compute in Hg. injection Hg as <-.
-  eexists. split; vm_compute; reflexivity.
-Qed.
+(* the hypotheses of ssa_total are satisfiable *)
 Example ssa_total_ex : exists f', ssa_model ex_f = Ok f' /\ erase_func f' = erase_func ex_f.
-Proof. apply (SsaTotal.ssa_total_partial ex_f 0); [vm_compute; reflexivity|reflexivity|exact semi_nca_ok_ex]. Qed.
+Proof.
+  apply (SsaUncond.ssa_total ex_f 0); [vm_compute; reflexivity|reflexivity|].
+  unfold blocks_fit. vm_compute. intros H. discriminate H.
+Qed.
